@@ -68,3 +68,46 @@ def producer_loops(ctx):
             out.append((b, t, lp))
             ctx.stats['bodies_inspected'].add(b.path)
     return out
+
+
+def worker_exit_check(ctx, b, what):
+    """A worker loop that pulls work items from a mutex-protected shared iterator may leave its loop only when the source is
+    exhausted (None arm of the pull) or when the send failed. Returns after recording results on ctx."""
+    pulls = [t for t in b.calls(r'::next$') if has(sym(b, t.args[0]), Call('Mutex::lock'))]
+    sends = [t for t in b.calls(r'mpsc::SyncSender::send$|mpsc::Sender::send$')]
+    if len(pulls) != 1 or len(sends) != 1:
+        raise AnchorMissing('%s: one locked pull and one send (found %d / %d)' % (what, len(pulls), len(sends)))
+    pull, send = pulls[0], sends[0]
+    loop = cfg.innermost_loop(b, pull.bb)
+    if loop is None:
+        raise AnchorMissing('%s: worker loop' % what)
+    pulled = nosite(sym(b, pull.dest))
+    sent = nosite(sym(b, send.dest))
+    from analysis.sym import edge_guards
+    for (u, v) in loop.exits(b):
+        ok = False
+        why = 'exit bb%d->bb%d at line %d' % (u, v, b.blocks[u].term.span['line'])
+        for g in edge_guards(b):
+            if g.block != u or g.target != v:
+                continue
+            t, pol = g.atom()
+            nt = nosite(t)
+            if t[0] == 'discr' and nosite(t[1]) == pulled and (g.values is None and 1 in (g.excluded or ()) or g.values == {0}):
+                ok = True   # None arm of the pull
+            elif pol is True and match(nt, Call('Result::is_err', Pred(lambda x: nosite(x) == sent))):
+                ok = True
+            elif pol is False and match(nt, Call('Result::is_ok', Pred(lambda x: nosite(x) == sent))):
+                ok = True
+            else:
+                why = 'the worker leaves its loop on `%s%s` (line %d)' % ('' if pol is not False else '!', show_in(b, t)[:80], b.blocks[u].term.span['line'])
+        ctx.require(ok, b, 'worker-exit|' + what.split()[0], '%s: loop exit bb%d->bb%d is "source exhausted" or "channel closed"' % (what, u, v),
+                    '%s: %s -- a worker that stops for any other reason leaves the remaining lines uncounted once all workers are gone'
+                    % (what, why), b.blocks[u].term.span)
+    # every pulled item is sent: from the Some arm every path to the back edge passes the send
+    sw = b.blocks[pull.target].term if pull.target is not None else None
+    some = [tg for (val, tg) in sw.arms if val == 1] if sw is not None and sw.kind == 'switch' else []
+    if some:
+        ok = all(cfg.must_pass(b, some[0], l, via_blocks=[send.bb]) for l in loop.latches)
+        ctx.require(ok, b, 'worker-sends-every-item|' + what.split()[0], '%s: every pulled line reaches the send before the next pull' % what,
+                    '%s: a pulled line can be skipped without sending its counts' % what, send.span)
+    return pull, send, loop
